@@ -75,13 +75,14 @@ fn drive_lax(out: &mut impl Write, r: &mut Rng, budget: usize, props: &Value) {
                 ("lax.unify", json!({"v": r.below(n), "w": r.below(n)}))
             } else if choice < 68 {
                 // valid, duplicated and (rarely) out-of-range identifiers
-                let mut ids = rand_seq(r, n, 3);
+                let mut ids = rand_seq(r, n, 4);
                 if r.coin(1, 12) {
                     ids.push(n + r.below(2));
                 }
                 ("lax.delete_nodes", json!({"ids": ids}))
             } else if choice < 73 && e > 0 {
-                let mut ids = rand_seq(r, e, 2);
+                // up to four ids: non-adjacent duplicates, any order
+                let mut ids = rand_seq(r, e, 4);
                 if r.coin(1, 12) {
                     ids.push(e);
                 }
